@@ -201,6 +201,74 @@ def explore_after_uninstall(label: str, cfg: Dict[str, Any], rng: random.Random,
     return traces
 
 
+def explore_declared_off(rng: random.Random, chk: common.Check) -> List[Dict[str, Any]]:
+    """Directed histories: nodes of every kind DECLARED off in the scenario (their interfaces are attached while the node is
+    off), started by the ordinary request; once they are on every agent action naming one of their existing components
+    must reach that component (probed), and the interface actions are executed."""
+    traces = []
+    cases = []
+    c = scenarios.routed()
+    cases.append(("declared_off:routed", c, ["a", "r"]))
+    c = scenarios.switched(3)
+    cases.append(("declared_off:switched", c, ["sw", "b"]))
+    c = scenarios.firewalled(dmz=True)
+    cases.append(("declared_off:firewalled", c, ["fw", "int"]))
+    for label, cfg, off in cases:
+        for n in cfg["simulation"]["network"]["nodes"]:
+            if n["hostname"] in off:
+                n["operating_state"] = "OFF"
+        game = scenarios.build(cfg)
+        sim = game.simulation
+        numbering = rq.DigestNumbering()
+        events, meta = [], []
+        for h in off:
+            sim.apply_request(["network", "node", h, "startup"])
+        for _ in range(6):
+            game.pre_timestep()
+            game.advance_timestep()
+        if any(sim.network.get_node_by_hostname(h).operating_state.name != "ON" for h in off):
+            raise tlc.TLCError(f"{label}: the nodes declared off did not come up")
+        cur = numbering.num(rq.state_digest(sim))
+        start = cur
+        for h in off:
+            probe_node_actions(game, h, rng, numbering, cur, events, meta, chk, label, only=())
+        # ... and the interface actions are executed
+        for (aname, opts, exist) in rq.action_instances(game, rng, per_type=50):
+            tgt = opts.get("node_name") or opts.get("target_nodename")
+            if tgt not in off or not aname.startswith(("host-nic-", "network-port-")):
+                continue
+            try:
+                req = rq.form(aname, opts)
+            except Exception:  # noqa
+                continue
+            obs, leaf = rq.dry_run(sim, req)
+            status, reason, raised = "", False, None
+            try:
+                resp = sim.apply_request(copy.deepcopy(req))
+                status = getattr(resp, "status", None) or f"not-a-response:{type(resp).__name__}"
+                data = getattr(resp, "data", None) or {}
+                reason = bool(data.get("reason")) if isinstance(data, dict) else False
+            except Exception as e:  # noqa
+                status = f"raised:{type(e).__name__}"
+                raised = repr(e)
+            post = numbering.num(rq.state_digest(sim))
+            events.append(rq.req_event(obs, leaf, True, status, reason, cur, post, "na", True, exist))
+            meta.append({"request": [str(x)[:60] for x in req], "kind": aname, "mutation": "wellformed", "raised": raised})
+            chk.add_case({"s": label, "k": aname, "st": status}, nontrivial=True)
+            cur = post
+        if not any(e["exec"] for e in events):
+            raise tlc.TLCError(f"{label}: no interface action was executed on a node declared off")
+        CH = 40
+        dig = start
+        for i in range(0, len(events), CH):
+            evs = events[i : i + CH]
+            traces.append({"cfg": {"dig": dig}, "ev": evs, "meta": {"scenario": label, "requests": meta[i : i + CH]}})
+            for e in evs:
+                if e["ev"] == "Tick" or e["exec"]:
+                    dig = e["post"]
+    return traces
+
+
 def probe_node_actions(game, node_name: str, rng: random.Random, numbering, cur: int, events, meta, chk, label: str,
                        only=("node-file-", "node-folder-")):
     """Dry-run every agent action aimed at one node (no execution): an action whose parameters name existing
@@ -407,6 +475,7 @@ def main(tier: str, seed: int) -> int:
         trs = explore_after_uninstall(label, cfg, rng, chk, 6 if tier == "quick" else 30)
         n_gone += sum(1 for tr in trs for e in tr["ev"] if e["gone"])
         traces += trs
+    traces += explore_declared_off(rng, chk)
     if n_gone == 0:
         raise tlc.TLCError("vacuous: no request was addressed to an uninstalled application")
     chk.cov["requests_to_uninstalled_applications"] = n_gone
